@@ -744,7 +744,7 @@ def run(tier="quick", seed=0):
 
         unreachable_hosts = set()
 
-        def discovered_case(w, h, up, rounds, method, unreachable=()):
+        def discovered_case(w, h, up, rounds, method, unreachable=(), dead=()):
             """machine rooted at (0, 0); `up`: the Ethernet chips whose link is up (they get a connection); `unreachable`: those
             of them whose address the host cannot reach (the board says its link is up, nothing sent to it is answered): such a
             connection is tried once, dropped, and the board's chips go on being reached over the initial connection"""
@@ -756,7 +756,9 @@ def run(tier="quick", seed=0):
             eths = sorted(set(tiles.values()))
             mcm.SCPConnection = Named
             ctl = MachineController("initial")
-            model = _scamp.Scamp(ctl.structs, w, h, root=(0, 0))
+            model = _scamp.Scamp(ctl.structs, w, h, root=(0, 0), dead=tuple(dead))
+            for xy in dead:
+                tiles.pop(xy, None)
             for e in eths:
                 c = model.chips[e]
                 c.eth_up = e in up_reported
@@ -774,7 +776,7 @@ def run(tier="quick", seed=0):
             ctl.connections[None].model = model
             mcm.SCPConnection = make
             inputs = {"width": w, "height": h, "root_chip": [0, 0], "ethernet_up": sorted(up_reported), "unreachable_from_the_host": sorted(unreachable),
-                      "discover_calls": rounds, "method": method}
+                      "discover_calls": rounds, "method": method, "dead_chips": sorted(dead)}
             try:
                 for _ in range(rounds):
                     ctl.discover_connections()
@@ -823,6 +825,16 @@ def run(tier="quick", seed=0):
                 for rounds in (1, 2):
                     discovered_case(w, h, set(eths), rounds, hmethods[hi % 3], unreachable=(eths[1],))
                     discovered_case(w, h, set(eths), rounds, hmethods[(hi + 1) % 3], unreachable=(eths[-1], eths[1]))
+
+            # dead chips (never Ethernet chips) on the edges that define the machine's extent: the far corner, the top of the last
+            # column, the end of the top row, a whole stretch of either - the size the controller works out decides which
+            # board a chip belongs to, so every remaining chip must still go over its own board's connection
+            for dead in (((w - 1, h - 1),), ((w - 1, h - 1), (w - 1, h - 2)), ((w - 1, h - 1), (w - 2, h - 1)),
+                         tuple((w - 1, y) for y in range(h - 3, h)), tuple((x, h - 1) for x in range(w - 3, w))):
+                if any(d in eths for d in dead):
+                    continue
+                hi += 1
+                discovered_case(w, h, set(eths), 1, hmethods[hi % 3], dead=dead)
 
         # ---- layer I: `board` given as an iterable of boards (set_led: "sent to the first board in the iterable") ---------
         mcm.SCPConnection, bmm.SCPConnection = Rec, Rec
@@ -950,7 +962,7 @@ def run(tier="quick", seed=0):
                      "inner exit and after every catch. S: nestings of application blocks (id positional / keyword / from context) mixed with argument blocks, every exit path: wire "
                      "log == stop signals, inner first. Q: three context objects (two argument blocks, one application block) created UP FRONT, then every well-nested enter/leave "
                      "program with <= 3 blocks over them (siblings, re-entry, nesting) x every subset (quick: every ninth for 3 blocks) of the points in between at which the context in force is probed; stop signal exactly when the application block is left. G: 12x12, 24x12, 12x24, 36x12, 24x24 SpiNN-5 machines x root chips (0,0),(8,4),(4,8),(1,2) x all / every second / no "
-                     "connection known, every chip, five methods (quick: one of them in rotation), expected board from an own hexagon model. I: set_led with `board` an iterable of boards (6 lists in their own order x keyword / positional / context x one or several LEDs): sent once, to the first board named, over that board's connection, with the mask of all of them. W: every core 0..17 and every board 0..23 x keyword / context / nested contexts through the REAL SCPConnection over a simulated socket: the destination chip and core / board read by hand from the datagram's SDP header are the resolved ones. H: the same question after the REAL discover_connections() (once / twice) on a simulated 12x12, 24x12, 12x24 (thorough 24x24) machine (bounded/_scamp.py answers the probes) whose Ethernet links are up on all / all but the first / every second / only the first board, and with one or two boards that report their link up but cannot be reached from the host (tried once, dropped, their chips reached over the initial connection): the connections created are exactly those of the boards that are up and every chip's command goes over its own board's. "
+                     "connection known, every chip, five methods (quick: one of them in rotation), expected board from an own hexagon model. I: set_led with `board` an iterable of boards (6 lists in their own order x keyword / positional / context x one or several LEDs): sent once, to the first board named, over that board's connection, with the mask of all of them. W: every core 0..17 and every board 0..23 x keyword / context / nested contexts through the REAL SCPConnection over a simulated socket: the destination chip and core / board read by hand from the datagram's SDP header are the resolved ones. H: the same question after the REAL discover_connections() (once / twice) on a simulated 12x12, 24x12, 12x24 (thorough 24x24) machine (bounded/_scamp.py answers the probes) whose Ethernet links are up on all / all but the first / every second / only the first board, and with one or two boards that report their link up but cannot be reached from the host (tried once, dropped, their chips reached over the initial connection), and with dead chips on the edges that define the machine's extent (far corner, top of the last column, end of the top row): the connections created are exactly those of the boards that are up and every chip's command goes over its own board's. "
                      "distinct = (method, ways) / (nesting, exit path) / (machine, root, known set, method)" % (layers, len(methods), len(skipped), "all three" if thorough else "one of three in rotation")),
             "bound": "<= 3 nested blocks, 4 ways of passing, machines up to 24x24 / 36x12, fixed dummy arguments and fixed replies from the recording connection",
             "exhaustive": False, "label": "bounded", "samples": samples[:8], "violations": viol[:6], "seconds": round(time.time() - t0, 2)}
